@@ -1,167 +1,700 @@
-(* Proofs_C31.v — lemmas and proofs for C31 (framing part; the round trip of the quoting is in
-   Roundtrip_C31.v). *)
-From Coq Require Import List NArith ZArith Bool Lia DecimalN DecimalFacts Decimal.
+(* Roundtrip_C31.v — bash_eval (generate_env_str env) gives back env: lemmas from the single
+   quoting forms up to the whole program. *)
+From Coq Require Import List NArith ZArith Bool Lia.
 Import ListNotations.
-From Verif Require Import Base.Val C31.Model_C31 C31.Spec_C31.
+From Verif Require Import Base.Val C31.Model_C31 C31.Spec_C31 C31.Proofs_C31.
 Local Open Scope N_scope.
 
-(* ------------------------------------------------------------------ decimal numerals *)
-Lemma str_uint_uint_str u : str_uint (uint_str u) = Some u.
-Proof. induction u; cbn [uint_str str_uint]; try rewrite IHu; reflexivity. Qed.
+Local Arguments ansi_simple : simpl never.
+Local Arguments is_octal : simpl never.
+Local Arguments hexval : simpl never.
+Local Arguments plain_char : simpl never.
+Local Arguments is_term : simpl never.
+Local Arguments dq_escapable : simpl never.
+Local Arguments byte_ok : simpl never.
 
-Lemma to_uint_no_leading_zero n u : N.to_uint n = D0 u -> u = Nil.
+(* ------------------------------------------------------------------ small tools *)
+Definition prepend (v : str) (o : option (str * str)) : option (str * str) :=
+  match o with Some (w, r) => Some (v ++ w, r) | None => None end.
+Lemma cons1_prepend c v (o : option (str * str)) : cons1 c (prepend v o) = prepend (c :: v) o.
+Proof. destruct o as [[w r]|]; reflexivity. Qed.
+Lemma prepend_nil o : prepend [] o = o.
+Proof. destruct o as [[w r]|]; reflexivity. Qed.
+
+Lemma neqb (a b : N) : a <> b -> (a =? b) = false.
+Proof. apply N.eqb_neq. Qed.
+
+Lemma not_in_cons_inv (x a : N) l : ~ In x (a :: l) -> a <> x /\ ~ In x l.
+Proof. intro H; split; [intro E; apply H; left; exact E | intro I; apply H; right; exact I]. Qed.
+
+Lemma memN_false c l : memN c l = false -> ~ In c l.
 Proof.
-  intro H.
-  assert (E : N.to_uint n = unorm (N.to_uint n)).
-  { rewrite <- (DecimalN.Unsigned.to_of (N.to_uint n)), DecimalN.Unsigned.of_to. reflexivity. }
-  rewrite H in E. unfold unorm in E. cbn [nzhead] in E.
-  pose proof (nb_digits_nzhead u) as L.
-  destruct (nzhead u) eqn:Z; try discriminate.
-  - injection E as ->. reflexivity.
-  - injection E as ->. cbn [nb_digits] in L. lia.
+  unfold memN. induction l as [|a l IH]; cbn [existsb]; intros H I; [destruct I|].
+  apply orb_false_iff in H as [H1 H2]. destruct I as [E|I].
+  - subst a. rewrite N.eqb_refl in H1. discriminate.
+  - exact (IH H2 I).
 Qed.
 
-Lemma to_uint_not_nil n : N.to_uint n <> Nil.
+(* where a word may stop *)
+Definition stops (rest : str) : Prop :=
+  match rest with [] => True | c :: _ => is_term c = true end.
+
+(* ------------------------------------------------------------------ one-step unfoldings *)
+Lemma word_plain_step arr c s :
+  word arr MPlain (c :: s) =
+  if is_term c then Some ([], c :: s)
+  else if c =? c_sq then word arr MSq s
+  else if c =? c_dq then word arr MDq s
+  else if c =? c_dollar then
+    match s with d :: s'' => if d =? c_sq then word arr MAnsi s'' else None | [] => None end
+  else if plain_char c then cons1 c (word arr MPlain s)
+  else None.
+Proof. destruct s; reflexivity. Qed.
+
+Lemma word_sq_step arr c s :
+  word arr MSq (c :: s) =
+  if c =? 0 then None else if c =? c_sq then word arr MPlain s else cons1 c (word arr MSq s).
+Proof. destruct s; reflexivity. Qed.
+
+Lemma word_dq_lit arr c s :
+  (c =? 0) = false -> (c =? c_dq) = false -> (c =? c_dollar) = false -> (c =? c_bt) = false ->
+  (c =? c_bs) = false -> (arr && ((c =? 1) || (c =? 127))) = false ->
+  word arr MDq (c :: s) = cons1 c (word arr MDq s).
 Proof.
-  destruct n as [|p]; cbn; [discriminate|].
-  apply DecimalPos.Unsigned.to_uint_nonnil.
+  intros H0 H1 H2 H3 H4 H5. destruct s; cbn [word]; rewrite H0, H1, H2, H3, H4, H5; reflexivity.
+Qed.
+Lemma word_dq_close arr s : word arr MDq (c_dq :: s) = word arr MPlain s.
+Proof. destruct s; reflexivity. Qed.
+
+Lemma word_ansi_lit arr c s :
+  (c =? 0) = false -> (c =? c_sq) = false -> (c =? c_bs) = false ->
+  word arr MAnsi (c :: s) = cons1 c (word arr MAnsi s).
+Proof. intros H0 H1 H2. destruct s; cbn [word]; rewrite H0, H1, H2; reflexivity. Qed.
+Lemma word_ansi_close arr s : word arr MAnsi (c_sq :: s) = word arr MPlain s.
+Proof. destruct s; reflexivity. Qed.
+Lemma word_ansi_bs arr s : word arr MAnsi (c_bs :: c_bs :: s) = cons1 c_bs (word arr MAnsi s).
+Proof. destruct s; reflexivity. Qed.
+Lemma word_ansi_sq arr s : word arr MAnsi (c_bs :: c_sq :: s) = cons1 c_sq (word arr MAnsi s).
+Proof. destruct s; reflexivity. Qed.
+
+(* ------------------------------------------------------------------ the quoting forms *)
+Lemma word_stop arr rest : stops rest -> word arr MPlain rest = Some ([], rest).
+Proof.
+  destruct rest as [|c r]; cbn [stops]; intro H; [reflexivity|].
+  rewrite word_plain_step, H. reflexivity.
 Qed.
 
-Lemma parse_dec_dec n : parse_dec (dec n) = Some n.
+Lemma word_sq_body arr v rest :
+  ~ In c_sq v -> ~ In 0 v ->
+  word arr MSq (v ++ c_sq :: rest) = prepend v (word arr MPlain rest).
 Proof.
-  unfold dec, parse_dec.
-  pose proof (str_uint_uint_str (N.to_uint n)) as R.
-  pose proof (DecimalN.Unsigned.of_to n) as O.
-  destruct (N.to_uint n) as [|u|u|u|u|u|u|u|u|u|u] eqn:E.
-  - exfalso; eapply to_uint_not_nil; eassumption.
-  - apply to_uint_no_leading_zero in E as ->. cbn. cbn in O. congruence.
-  - cbn [uint_str]. change (49 =? 48) with false. cbn [andb].
-    change (49 :: uint_str u) with (uint_str (D1 u)). rewrite R, O. reflexivity.
-  - cbn [uint_str]. change (50 =? 48) with false. cbn [andb].
-    change (50 :: uint_str u) with (uint_str (D2 u)). rewrite R, O. reflexivity.
-  - cbn [uint_str]. change (51 =? 48) with false. cbn [andb].
-    change (51 :: uint_str u) with (uint_str (D3 u)). rewrite R, O. reflexivity.
-  - cbn [uint_str]. change (52 =? 48) with false. cbn [andb].
-    change (52 :: uint_str u) with (uint_str (D4 u)). rewrite R, O. reflexivity.
-  - cbn [uint_str]. change (53 =? 48) with false. cbn [andb].
-    change (53 :: uint_str u) with (uint_str (D5 u)). rewrite R, O. reflexivity.
-  - cbn [uint_str]. change (54 =? 48) with false. cbn [andb].
-    change (54 :: uint_str u) with (uint_str (D6 u)). rewrite R, O. reflexivity.
-  - cbn [uint_str]. change (55 =? 48) with false. cbn [andb].
-    change (55 :: uint_str u) with (uint_str (D7 u)). rewrite R, O. reflexivity.
-  - cbn [uint_str]. change (56 =? 48) with false. cbn [andb].
-    change (56 :: uint_str u) with (uint_str (D8 u)). rewrite R, O. reflexivity.
-  - cbn [uint_str]. change (57 =? 48) with false. cbn [andb].
-    change (57 :: uint_str u) with (uint_str (D9 u)). rewrite R, O. reflexivity.
+  induction v as [|a v IH]; cbn [app]; intros Hq H0.
+  - rewrite word_sq_step. cbn. rewrite prepend_nil. reflexivity.
+  - apply not_in_cons_inv in Hq as [Hq1 Hq2]. apply not_in_cons_inv in H0 as [H01 H02].
+    rewrite word_sq_step, (neqb _ _ H01), (neqb _ _ Hq1), (IH Hq2 H02), cons1_prepend. reflexivity.
 Qed.
 
-Lemma uint_str_digits u : forallb is_digit (uint_str u) = true.
-Proof. induction u; cbn [uint_str forallb]; try rewrite IHu; reflexivity. Qed.
-Lemma dec_digits n : forallb is_digit (dec n) = true.
-Proof. apply uint_str_digits. Qed.
+Lemma esc_ansi_cons a v : esc_ansi (a :: v) = esc_ansi_c a ++ esc_ansi v.
+Proof. reflexivity. Qed.
 
-(* ------------------------------------------------------------------ ASCII lines *)
-Definition line_char (c : N) : bool := (c <? 128) && negb (c =? c_nl).
-Definition ascii_line (s : str) : Prop := forallb line_char s = true.
-
-Lemma ascii_line_app a b : ascii_line a -> ascii_line b -> ascii_line (a ++ b).
-Proof. unfold ascii_line; intros; rewrite forallb_app; apply andb_true_iff; auto. Qed.
-
-Lemma ascii_line_encode s : ascii_line s -> encode s = s.
+Lemma word_ansi_body arr v rest :
+  ~ In 0 v ->
+  word arr MAnsi (esc_ansi v ++ c_sq :: rest) = prepend v (word arr MPlain rest).
 Proof.
-  unfold ascii_line, encode. induction s as [|c s IH]; cbn [forallb flat_map]; intro H; [reflexivity|].
-  apply andb_true_iff in H as [Hc Hs]. rewrite (IH Hs).
-  unfold line_char in Hc. apply andb_true_iff in Hc as [Hc _].
-  unfold utf8. rewrite Hc. reflexivity.
+  induction v as [|a v IH]; intro H0.
+  - cbn [esc_ansi flat_map app]. rewrite word_ansi_close, prepend_nil. reflexivity.
+  - apply not_in_cons_inv in H0 as [H01 H02].
+    rewrite esc_ansi_cons. unfold esc_ansi_c.
+    destruct (a =? c_bs) eqn:Eb; [|destruct (a =? c_sq) eqn:Eq].
+    + apply N.eqb_eq in Eb. subst a. cbn [app].
+      rewrite word_ansi_bs, (IH H02), cons1_prepend. reflexivity.
+    + apply N.eqb_eq in Eq. subst a. cbn [app].
+      rewrite word_ansi_sq, (IH H02), cons1_prepend. reflexivity.
+    + cbn [app]. rewrite (word_ansi_lit _ _ _ (neqb _ _ H01) Eq Eb), (IH H02), cons1_prepend.
+      reflexivity.
 Qed.
 
-Lemma ascii_line_no_nl s : ascii_line s -> ~ In c_nl s.
+Lemma word_dq_body v rest :
+  existsb dq_unsafe v = false -> ~ In 0 v ->
+  word true MDq (v ++ c_dq :: rest) = prepend v (word true MPlain rest).
 Proof.
-  unfold ascii_line. induction s as [|c s IH]; cbn [forallb]; intros H I.
-  - destruct I.
-  - apply andb_true_iff in H as [Hc Hs]. destruct I as [E|I].
-    + subst c. discriminate Hc.
-    + exact (IH Hs I).
+  induction v as [|a v IH]; cbn [app existsb]; intros Hs H0.
+  - rewrite word_dq_close, prepend_nil. reflexivity.
+  - apply orb_false_iff in Hs as [Ha Hs]. apply not_in_cons_inv in H0 as [H01 H02].
+    unfold dq_unsafe in Ha.
+    repeat (apply orb_false_iff in Ha as [Ha ?]).
+    rewrite word_dq_lit; auto using neqb.
+    + rewrite (IH Hs H02), cons1_prepend. reflexivity.
+    + cbn [andb]. apply orb_false_iff; split; assumption.
 Qed.
 
-Lemma digits_ascii_line s : forallb is_digit s = true -> ascii_line s.
+(* the quoted forms read back as the value *)
+Lemma word_quote_hard arr v rest :
+  ~ In 0 v -> stops rest -> word arr MPlain (quote_hard v ++ rest) = Some (v, rest).
 Proof.
-  unfold ascii_line. induction s as [|c s IH]; cbn [forallb]; intro H; [reflexivity|].
-  apply andb_true_iff in H as [Hc Hs]. rewrite (IH Hs), andb_true_r.
-  unfold is_digit in Hc. unfold line_char, c_nl.
-  apply andb_true_iff in Hc as [H1 H2]. apply N.leb_le in H1, H2.
-  apply andb_true_iff; split; [apply N.ltb_lt; lia | apply negb_true_iff, N.eqb_neq; lia].
+  intros H0 Hr. unfold quote_hard.
+  destruct (memN c_sq v) eqn:M; cbn [negb].
+  - cbn [app]. rewrite word_plain_step. cbn.
+    rewrite <- app_assoc. cbn [app]. rewrite (word_ansi_body _ _ _ H0), (word_stop _ _ Hr).
+    cbn [prepend]. rewrite app_nil_r. reflexivity.
+  - cbn [app]. rewrite word_plain_step. cbn.
+    rewrite <- app_assoc. cbn [app]. rewrite (word_sq_body _ _ _ (memN_false _ _ M) H0), (word_stop _ _ Hr).
+    cbn [prepend]. rewrite app_nil_r. reflexivity.
 Qed.
 
-Lemma encode_app a b : encode (a ++ b) = encode a ++ encode b.
-Proof. apply flat_map_app. Qed.
-
-(* ------------------------------------------------------------------ the reader *)
-Lemma read_line_app l r : ~ In c_nl l -> read_line (l ++ c_nl :: r) = Some (l, r).
+Lemma alnum_c_plain U c :
+  py_isalnum_c U c = true ->
+  is_term c = false /\ (c =? c_sq) = false /\ (c =? c_dq) = false /\ (c =? c_dollar) = false
+  /\ plain_char c = true.
 Proof.
-  induction l as [|b l IH]; cbn [app read_line]; intro H.
+  unfold py_isalnum_c, is_term, plain_char, is_name_char, is_name_start, is_digit, is_alpha_ascii,
+    c_sp, c_tab, c_nl, c_rp, c_sq, c_dq, c_dollar, c_us, memN.
+  cbn [existsb].
+  destruct (c <? 128) eqn:L; intro H.
+  - apply N.ltb_lt in L.
+    assert (D : (48 <= c /\ c <= 57) \/ (65 <= c /\ c <= 90) \/ (97 <= c /\ c <= 122)).
+    { repeat (apply orb_true_iff in H as [H|H]); apply andb_true_iff in H as [H1 H2];
+        apply N.leb_le in H1, H2; lia. }
+    repeat split; try (apply N.eqb_neq; lia);
+      try (repeat (apply orb_false_iff; split); apply N.eqb_neq; lia).
+    destruct D as [[? ?]|[[? ?]|[? ?]]].
+    + replace (48 <=? c) with true by (symmetry; apply N.leb_le; lia).
+      replace (c <=? 57) with true by (symmetry; apply N.leb_le; lia).
+      cbn. rewrite !orb_true_r. reflexivity.
+    + replace (65 <=? c) with true by (symmetry; apply N.leb_le; lia).
+      replace (c <=? 90) with true by (symmetry; apply N.leb_le; lia).
+      reflexivity.
+    + replace (97 <=? c) with true by (symmetry; apply N.leb_le; lia).
+      replace (c <=? 122) with true by (symmetry; apply N.leb_le; lia).
+      cbn. rewrite !orb_true_r. reflexivity.
+  - apply N.ltb_ge in L.
+    repeat split; try (apply N.eqb_neq; lia);
+      try (repeat (apply orb_false_iff; split); apply N.eqb_neq; lia).
+    replace (128 <=? c) with true by (symmetry; apply N.leb_le; lia).
+    rewrite orb_true_r. reflexivity.
+Qed.
+
+Lemma word_bare U arr v rest :
+  forallb (py_isalnum_c U) v = true -> stops rest ->
+  word arr MPlain (v ++ rest) = Some (v, rest).
+Proof.
+  induction v as [|a v IH]; cbn [app forallb]; intros H Hr.
+  - apply word_stop; exact Hr.
+  - apply andb_true_iff in H as [Ha Hv].
+    destruct (alnum_c_plain U a Ha) as (T & Q & D & S & P).
+    rewrite word_plain_step, T, Q, D, S, P, (IH Hv Hr). reflexivity.
+Qed.
+
+Lemma word_quote_scalar U v rest :
+  ~ In 0 v -> stops rest -> word false MPlain (quote_scalar U v ++ rest) = Some (v, rest).
+Proof.
+  intros H0 Hr. unfold quote_scalar.
+  destruct (py_isalnum U v) eqn:A.
+  - apply word_bare with (U := U); [|exact Hr].
+    unfold py_isalnum in A. destruct v; [discriminate | exact A].
+  - apply word_quote_hard; assumption.
+Qed.
+
+Lemma word_quote_elem v rest :
+  ~ In 0 v -> stops rest -> word true MPlain (quote_elem v ++ rest) = Some (v, rest).
+Proof.
+  intros H0 Hr. unfold quote_elem.
+  destruct (existsb dq_unsafe v) eqn:D.
+  - apply word_quote_hard; assumption.
+  - cbn [app]. rewrite word_plain_step. cbn.
+    rewrite <- app_assoc. cbn [app]. rewrite (word_dq_body _ _ D H0), (word_stop _ _ Hr).
+    cbn [prepend]. rewrite app_nil_r. reflexivity.
+Qed.
+
+(* first characters of the quoted forms (they are not `(` and not blank) *)
+Lemma quote_scalar_head U v :
+  exists d r, quote_scalar U v = d :: r /\ (d =? c_lp) = false.
+Proof.
+  unfold quote_scalar, quote_hard.
+  destruct (py_isalnum U v) eqn:A.
+  - destruct v as [|a v]; [discriminate|]. exists a, v. split; [reflexivity|].
+    cbn [py_isalnum forallb] in A. apply andb_true_iff in A as [A _].
+    destruct (alnum_c_plain U a A) as (T & _). unfold is_term in T.
+    unfold py_isalnum_c, is_digit, is_alpha_ascii in A. unfold c_lp.
+    destruct (a <? 128) eqn:L.
+    + apply N.eqb_neq. intro E. subst a. discriminate A.
+    + apply N.ltb_ge in L. apply N.eqb_neq. lia.
+  - destruct (negb (memN c_sq v)); eexists; eexists; (split; [reflexivity|reflexivity]).
+Qed.
+
+(* ------------------------------------------------------------------ names and subscripts *)
+Lemma name_char_not_eq c : is_name_char c = true -> (c =? c_eq) = false.
+Proof.
+  unfold is_name_char, is_name_start, is_alpha_ascii, is_digit, c_us, c_eq. intro H.
+  apply N.eqb_neq. intro E. subst c. discriminate H.
+Qed.
+
+Lemma take_name_chars_ok k rest :
+  forallb is_name_char k = true -> take_name_chars (k ++ c_eq :: rest) = Some (k, rest).
+Proof.
+  induction k as [|a k IH]; cbn [app forallb take_name_chars]; intro H.
   - reflexivity.
-  - destruct (b =? c_nl) eqn:E.
-    + apply N.eqb_eq in E. exfalso; apply H; left; auto.
-    + Show. rewrite IH; [reflexivity | intro I; apply H; right; exact I].
+  - apply andb_true_iff in H as [Ha Hk].
+    rewrite (name_char_not_eq _ Ha), Ha, (IH Hk). reflexivity.
 Qed.
 
-Lemma strip_prefix_app p s : strip_prefix p (p ++ s) = Some s.
+Lemma valid_name_chars k : valid_nameb k = true -> forallb is_name_char k = true.
 Proof.
-  induction p as [|x p IH]; cbn [app strip_prefix]; [destruct s; reflexivity|].
-  rewrite N.eqb_refl. exact IH.
+  destruct k as [|a k]; [discriminate|]. cbn [valid_nameb forallb]. intro H.
+  apply andb_true_iff in H as [Ha Hk]. unfold is_name_char at 1. rewrite Ha, Hk. reflexivity.
 Qed.
 
-Lemma firstn_len_app {A} (a b : list A) : firstn (length a) (a ++ b) = a.
-Proof. induction a; cbn; congruence. Qed.
-Lemma skipn_len_app {A} (a b : list A) : skipn (length a) (a ++ b) = b.
-Proof. induction a; cbn; congruence. Qed.
-
-Lemma hdr_bytes_line : ascii_line HDR_BYTES.  Proof. reflexivity. Qed.
-Lemma hdr_file_line : ascii_line HDR_FILE.    Proof. reflexivity. Qed.
-
-(* inline transfer: the daemon's reader gets exactly the encoded data and leaves exactly what
-   the Python side writes afterwards *)
-Lemma framing_in_sync_proof : forall data rest,
-  reader (frame data ++ rest) = Some (encode data, rest).
+Lemma take_name_ok k rest :
+  valid_nameb k = true -> take_name (k ++ c_eq :: rest) = Some (k, rest).
 Proof.
-  intros data rest. unfold frame, reader.
-  set (n := N.of_nat (length (encode data))).
-  assert (L : ascii_line (HDR_BYTES ++ dec n))
-    by (apply ascii_line_app; [exact hdr_bytes_line | apply digits_ascii_line, dec_digits]).
-  replace (encode (HDR_BYTES ++ dec n ++ [c_nl] ++ data) ++ rest)
-    with ((HDR_BYTES ++ dec n) ++ c_nl :: (encode data ++ rest)).
-  2:{ rewrite (app_assoc HDR_BYTES), encode_app, (ascii_line_encode _ L).
-      rewrite encode_app. cbn [encode flat_map app]. unfold utf8 at 1. cbn [N.ltb N.compare Pos.compare Pos.compare_cont].
-      rewrite <- !app_assoc. reflexivity. }
-  rewrite (read_line_app _ _ (ascii_line_no_nl _ L)).
-  rewrite strip_prefix_app, parse_dec_dec.
-  unfold n. rewrite Nat2N.id.
-  replace (length (encode data ++ rest) <? length (encode data))%nat with false
-    by (symmetry; apply Nat.ltb_ge; rewrite app_length; lia).
-  rewrite firstn_len_app, skipn_len_app. reflexivity.
+  intro H. unfold take_name. rewrite (take_name_chars_ok _ _ (valid_name_chars _ H)), H. reflexivity.
 Qed.
 
-(* transfer through a file: the command line is consumed exactly (the path has no newline and
-   is ASCII here; the data does not travel on the channel at all) *)
-Lemma framing_file_in_sync_proof : forall path rest,
-  ascii_line path -> reader_file (frame_file path ++ rest) = Some (path, rest).
+Lemma take_digits_ok d rest :
+  forallb is_digit d = true -> take_digits (d ++ c_rb :: rest) = Some (d, rest).
 Proof.
-  intros path rest P. unfold frame_file, reader_file.
-  assert (L : ascii_line (HDR_FILE ++ path)) by (apply ascii_line_app; [exact hdr_file_line | exact P]).
-  replace (encode (HDR_FILE ++ path ++ [c_nl]) ++ rest) with ((HDR_FILE ++ path) ++ c_nl :: rest).
-  2:{ rewrite (app_assoc HDR_FILE), encode_app, (ascii_line_encode _ L).
-      cbn [encode flat_map app]. unfold utf8. cbn [N.ltb N.compare Pos.compare Pos.compare_cont].
-      rewrite <- !app_assoc. reflexivity. }
-  rewrite (read_line_app _ _ (ascii_line_no_nl _ L)), strip_prefix_app. reflexivity.
+  induction d as [|a d IH]; cbn [app forallb take_digits]; intro H.
+  - reflexivity.
+  - apply andb_true_iff in H as [Ha Hd].
+    assert (E : (a =? c_rb) = false).
+    { unfold is_digit in Ha. apply andb_true_iff in Ha as [H1 H2]. apply N.leb_le in H1, H2.
+      apply N.eqb_neq. unfold c_rb. lia. }
+    rewrite E, Ha, (IH Hd). reflexivity.
 Qed.
 
-(* the count sent before the repair (characters) loses synchronisation on non-ASCII data *)
-Lemma framing_charcount_refuted_proof :
-  exists data rest, reader (frame_old data ++ rest) <> Some (encode data, rest).
-Proof. exists [65; 61; 233], [97; 10]. vm_compute. discriminate. Qed.
+Lemma take_index_ok i rest :
+  take_index (dec i ++ c_rb :: c_eq :: rest) = Some (i, rest).
+Proof.
+  unfold take_index. rewrite (take_digits_ok _ _ (dec_digits i)), parse_dec_dec.
+  rewrite N.eqb_refl. reflexivity.
+Qed.
 
-Example framing_example :
-  reader (frame [65; 61; 39; 233; 32; 8364; 39] ++ PROBE)
-  = Some ([65; 61; 39; 195; 169; 32; 226; 130; 172; 39], PROBE).
-Proof. vm_compute. reflexivity. Qed.
+(* ------------------------------------------------------------------ array literals *)
+Lemma join_cons sep x r :
+  join sep (x :: r) = x ++ flat_map (fun y => sep ++ y) r.
+Proof.
+  revert x. induction r as [|y r IH]; intro x.
+  - cbn [join flat_map]. rewrite app_nil_r. reflexivity.
+  - change (join sep (x :: y :: r)) with (x ++ sep ++ join sep (y :: r)).
+    rewrite (IH y). cbn [flat_map]. rewrite <- app_assoc. reflexivity.
+Qed.
+
+Definition elem_str (i : N) (v : str) : str := [c_lb] ++ dec i ++ [c_rb; c_eq] ++ quote_elem v.
+
+Lemma elem_str_len i v : (1 <= length (elem_str i v))%nat.
+Proof. unfold elem_str. cbn [app length]. lia. Qed.
+
+Lemma elems_cons i v r : elems i (v :: r) = elem_str i v :: elems (N.succ i) r.
+Proof. reflexivity. Qed.
+
+Lemma skip_ws_sp_lb s : skip_ws (c_sp :: c_lb :: s) = c_lb :: s.
+Proof. reflexivity. Qed.
+
+Lemma stops_sp s : stops (c_sp :: s).  Proof. reflexivity. Qed.
+Lemma stops_rp s : stops (c_rp :: s).  Proof. reflexivity. Qed.
+Lemma stops_nl s : stops (c_nl :: s).  Proof. reflexivity. Qed.
+
+(* one element, after optional blank *)
+Lemma arr_elems_step f i v rest (lead : bool) :
+  ~ In 0 v -> stops rest ->
+  arr_elems (S f) ((if lead then [c_sp] else []) ++ elem_str i v ++ rest) =
+  match arr_elems f rest with Some (l, r) => Some ((i, v) :: l, r) | None => None end.
+Proof.
+  intros H0 Hr. unfold elem_str. cbn [arr_elems].
+  assert (E : skip_ws ((if lead then [c_sp] else []) ++
+                       ([c_lb] ++ dec i ++ [c_rb; c_eq] ++ quote_elem v) ++ rest)
+              = c_lb :: dec i ++ c_rb :: c_eq :: quote_elem v ++ rest).
+  { destruct lead; cbn [app]; [rewrite skip_ws_sp_lb|cbn [skip_ws]; cbn];
+      rewrite <- !app_assoc; reflexivity. }
+  rewrite E. cbn. rewrite take_index_ok, (word_quote_elem _ _ H0 Hr). reflexivity.
+Qed.
+
+Lemma arr_elems_tail vs : forall i rest fuel,
+  (forall v, In v vs -> ~ In 0 v) ->
+  (length (flat_map (fun y => [c_sp] ++ y) (elems i vs) ++ c_rp :: rest) < fuel)%nat ->
+  arr_elems fuel (flat_map (fun y => [c_sp] ++ y) (elems i vs) ++ c_rp :: rest)
+  = Some (indexed i vs, rest).
+Proof.
+  induction vs as [|v vs IH]; intros i rest fuel H0 L.
+  - cbn [elems flat_map app] in *. destruct fuel; [cbn in L; lia|]. reflexivity.
+  - rewrite elems_cons in *. cbn [flat_map] in *. rewrite <- !app_assoc in *.
+    destruct fuel; [lia|].
+    rewrite (arr_elems_step fuel i v _ true).
+    + rewrite IH; [reflexivity | intros; apply H0; right; assumption |].
+      rewrite ?app_length in *. cbn [length] in *. lia.
+    + apply H0; left; reflexivity.
+    + destruct (elems (N.succ i) vs); cbn [flat_map app]; [apply stops_rp | apply stops_sp].
+Qed.
+
+Lemma arr_elems_ok vs rest fuel :
+  (forall v, In v vs -> ~ In 0 v) ->
+  (length (join [c_sp] (elems 0 vs) ++ c_rp :: rest) < fuel)%nat ->
+  arr_elems fuel (join [c_sp] (elems 0 vs) ++ c_rp :: rest) = Some (indexed 0 vs, rest).
+Proof.
+  intros H0 L. destruct vs as [|v vs].
+  - cbn [elems join app] in *. destruct fuel; [lia|]. reflexivity.
+  - rewrite elems_cons, join_cons in *. rewrite <- app_assoc in *.
+    destruct fuel; [lia|].
+    match goal with |- arr_elems _ (_ ++ ?R) = _ =>
+      change (elem_str 0 v ++ R) with ((if false then [c_sp] else []) ++ elem_str 0 v ++ R) end.
+    rewrite (arr_elems_step fuel 0 v _ false).
+    + cbn [indexed]. rewrite arr_elems_tail; [reflexivity | intros; apply H0; right; assumption |].
+      pose proof (elem_str_len 0 v). rewrite ?app_length in *. cbn [length] in *. lia.
+    + apply H0; left; reflexivity.
+    + destruct (elems (N.succ 0) vs); cbn [flat_map app]; [apply stops_rp | apply stops_sp].
+Qed.
+
+(* ascending subscripts are stored as they come *)
+Lemma arr_set_append i v acc :
+  (forall j w, In (j, w) acc -> j < i) -> arr_set i v acc = acc ++ [(i, v)].
+Proof.
+  induction acc as [|[j w] acc IH]; intro H; cbn [arr_set app]; [reflexivity|].
+  assert (J : j < i) by (apply (H j w); left; reflexivity).
+  replace (i =? j) with false by (symmetry; apply N.eqb_neq; lia).
+  replace (i <? j) with false by (symmetry; apply N.ltb_ge; lia).
+  rewrite IH; [reflexivity|]. intros; eapply H; right; eassumption.
+Qed.
+
+Lemma indexed_ge i vs j w : In (j, w) (indexed i vs) -> i <= j.
+Proof.
+  revert i. induction vs as [|v vs IH]; intros i H; cbn [indexed] in H; [destruct H|].
+  destruct H as [E|H]; [injection E as <- _; lia | apply IH in H; lia].
+Qed.
+
+Lemma arr_norm_indexed_gen vs : forall i acc,
+  (forall j w, In (j, w) acc -> j < i) ->
+  fold_left (fun acc iv => arr_set (fst iv) (snd iv) acc) (indexed i vs) acc = acc ++ indexed i vs.
+Proof.
+  induction vs as [|v vs IH]; intros i acc H; cbn [indexed fold_left].
+  - rewrite app_nil_r. reflexivity.
+  - cbn [fst snd]. rewrite (arr_set_append _ _ _ H), IH.
+    + rewrite <- app_assoc. reflexivity.
+    + intros j w I. apply in_app_or in I as [I|[E|[]]].
+      * apply H in I. lia.
+      * injection E as <- _. lia.
+Qed.
+
+Lemma arr_norm_indexed vs : arr_norm (indexed 0 vs) = indexed 0 vs.
+Proof. unfold arr_norm. rewrite arr_norm_indexed_gen; [reflexivity | intros ? ? []]. Qed.
+
+(* ------------------------------------------------------------------ one assignment word *)
+Definition bval_of (v : pyval) : bval :=
+  match v with PStr s => BStr s | PList l => BArr (indexed 0 l) | POther => BStr [] end.
+Definition item_str (U : uni) (kv : str * pyval) : str :=
+  match render_val U (fst kv) (snd kv) with Some a => a | None => [] end.
+Definition entry (exp : bool) (kv : str * pyval) : assignment := (fst kv, bval_of (snd kv), exp).
+Definition item_ok (kv : str * pyval) : Prop := valid_nameb (fst kv) = true /\ value_ok (snd kv).
+
+Lemma assigns_unfold f exp s :
+  assigns (S f) exp s =
+  match skip_sp s with
+  | [] => Some ([], [])
+  | c :: s' =>
+      if c =? c_nl then Some ([], s')
+      else
+        match take_name (c :: s') with
+        | None => None
+        | Some (k, r) =>
+            match
+              match r with
+              | d :: r' =>
+                  if d =? c_lp then
+                    match arr_elems f r' with
+                    | Some (l, r2) => Some (BArr (arr_norm l), r2)
+                    | None => None
+                    end
+                  else match word false MPlain r with
+                       | Some (v, r2) => Some (BStr v, r2)
+                       | None => None
+                       end
+              | [] => Some (BStr [], [])
+              end
+            with
+            | None => None
+            | Some (bv, r2) =>
+                if ends_word r2 then
+                  match assigns f exp r2 with
+                  | Some (l, r3) => Some ((k, bv, exp) :: l, r3)
+                  | None => None
+                  end
+                else None
+            end
+        end
+  end.
+Proof. reflexivity. Qed.
+
+Lemma ends_word_stops rest : ends_word rest = true -> stops rest.
+Proof.
+  destruct rest as [|c r]; cbn [ends_word stops]; intro H; [exact I|].
+  unfold is_term. rewrite orb_true_iff in H. destruct H as [H|H].
+  - rewrite H. reflexivity.
+  - rewrite H. rewrite !orb_true_r. reflexivity.
+Qed.
+
+Lemma name_start_facts c :
+  is_name_start c = true ->
+  (c =? c_sp) = false /\ (c =? c_tab) = false /\ (c =? c_nl) = false.
+Proof.
+  unfold is_name_start, is_alpha_ascii, c_us, c_sp, c_tab, c_nl. intro H.
+  repeat split; apply N.eqb_neq; intro E; subst c; discriminate H.
+Qed.
+
+Lemma skip_sp_name (lead : bool) c s :
+  is_name_start c = true ->
+  skip_sp ((if lead then [c_sp] else []) ++ c :: s) = c :: s.
+Proof.
+  intro H. destruct (name_start_facts c H) as (A & B & _).
+  destruct lead; cbn [app skip_sp]; [cbn|]; rewrite A, B; reflexivity.
+Qed.
+
+Lemma assigns_step U f exp kv rest (lead : bool) :
+  item_ok kv -> ends_word rest = true ->
+  (length ((if lead then [c_sp] else []) ++ item_str U kv ++ rest) < S f)%nat ->
+  assigns (S f) exp ((if lead then [c_sp] else []) ++ item_str U kv ++ rest) =
+  match assigns f exp rest with
+  | Some (l, r3) => Some (entry exp kv :: l, r3)
+  | None => None
+  end.
+Proof.
+  destruct kv as [k v]. intros [Hk Hv] Hr L. cbn [fst snd] in Hk, Hv.
+  destruct k as [|c k']; [discriminate|].
+  assert (Hc : is_name_start c = true) by (cbn [valid_nameb] in Hk; apply andb_true_iff in Hk; tauto).
+  destruct (name_start_facts c Hc) as (_ & _ & Hnl).
+  rewrite assigns_unfold.
+  destruct v as [s|l|]; [| |destruct Hv]; unfold item_str, entry in *; cbn [render_val fst snd bval_of] in *.
+  - (* scalar *)
+    replace (((c :: k') ++ [c_eq] ++ quote_scalar U s) ++ rest)
+      with (c :: k' ++ c_eq :: quote_scalar U s ++ rest) in *
+      by (cbn [app]; rewrite <- !app_assoc; reflexivity).
+    rewrite (skip_sp_name lead c _ Hc), Hnl.
+    change (c :: k' ++ c_eq :: quote_scalar U s ++ rest)
+      with ((c :: k') ++ c_eq :: quote_scalar U s ++ rest).
+    rewrite (take_name_ok _ _ Hk).
+    destruct (quote_scalar_head U s) as (d & q & E & Hd).
+    rewrite E at 1. cbn [app]. rewrite Hd.
+    rewrite (word_quote_scalar U s rest Hv (ends_word_stops _ Hr)), Hr. reflexivity.
+  - (* list *)
+    replace (((c :: k') ++ [c_eq; c_lp] ++ join [c_sp] (elems 0 l) ++ [c_rp]) ++ rest)
+      with (c :: k' ++ c_eq :: c_lp :: join [c_sp] (elems 0 l) ++ c_rp :: rest) in *
+      by (repeat (cbn [app]; rewrite <- ?app_assoc); reflexivity).
+    rewrite (skip_sp_name lead c _ Hc), Hnl.
+    change (c :: k' ++ c_eq :: c_lp :: join [c_sp] (elems 0 l) ++ c_rp :: rest)
+      with ((c :: k') ++ c_eq :: c_lp :: join [c_sp] (elems 0 l) ++ c_rp :: rest).
+    rewrite (take_name_ok _ _ Hk). rewrite N.eqb_refl.
+    rewrite arr_elems_ok.
+    + rewrite arr_norm_indexed, Hr. reflexivity.
+    + exact Hv.
+    + rewrite ?app_length in *. cbn [length] in *. rewrite ?app_length in *. cbn [length] in *.
+      destruct lead; cbn [length] in L; rewrite ?app_length in L; cbn [length] in L; lia.
+Qed.
+
+(* ------------------------------------------------------------------ one line of assignments *)
+Definition tail_spec (tail rest : str) : Prop :=
+  (tail = [] /\ rest = []) \/ tail = c_nl :: rest.
+
+Lemma assigns_end fuel exp tail rest :
+  tail_spec tail rest -> (0 < fuel)%nat -> assigns fuel exp tail = Some ([], rest).
+Proof.
+  intros [[-> ->]| ->] F; destruct fuel; try lia; reflexivity.
+Qed.
+
+Lemma tail_ends tail rest : tail_spec tail rest -> ends_word tail = true.
+Proof. intros [[-> _]| ->]; reflexivity. Qed.
+
+Lemma item_str_nonempty U kv : item_ok kv -> exists c r, item_str U kv = c :: r /\ is_name_start c = true.
+Proof.
+  destruct kv as [k v]. intros [Hk Hv]. cbn [fst snd] in *.
+  destruct k as [|c k']; [discriminate|].
+  assert (Hc : is_name_start c = true) by (cbn [valid_nameb] in Hk; apply andb_true_iff in Hk; tauto).
+  destruct v; [| |destruct Hv]; unfold item_str; cbn [render_val fst snd app]; eauto.
+Qed.
+
+Lemma assigns_tail U items : forall fuel exp tail rest,
+  Forall item_ok items -> tail_spec tail rest ->
+  (length (flat_map (fun kv => [c_sp] ++ item_str U kv) items ++ tail) < fuel)%nat ->
+  assigns fuel exp (flat_map (fun kv => [c_sp] ++ item_str U kv) items ++ tail)
+  = Some (map (entry exp) items, rest).
+Proof.
+  induction items as [|kv items IH]; intros fuel exp tail rest Hok Ht L.
+  - cbn [flat_map app map] in *. apply assigns_end; [exact Ht | lia].
+  - inversion Hok as [|? ? Hkv Hrest]; subst.
+    cbn [flat_map map] in *. rewrite <- !app_assoc in *.
+    destruct fuel; [lia|].
+    rewrite (assigns_step U fuel exp kv _ true Hkv).
+    + rewrite (IH fuel exp tail rest Hrest Ht); [reflexivity|].
+      rewrite ?app_length in *. cbn [length] in *. lia.
+    + destruct items; cbn [flat_map app]; [exact (tail_ends _ _ Ht) | reflexivity].
+    + exact L.
+Qed.
+
+Lemma flat_map_map {A B C} (g : A -> B) (f : B -> list C) l :
+  flat_map f (map g l) = flat_map (fun x => f (g x)) l.
+Proof. induction l; cbn; congruence. Qed.
+
+Lemma assigns_line U kv items fuel exp tail rest :
+  Forall item_ok (kv :: items) -> tail_spec tail rest ->
+  (length (join [c_sp] (map (item_str U) (kv :: items)) ++ tail) < fuel)%nat ->
+  assigns fuel exp (join [c_sp] (map (item_str U) (kv :: items)) ++ tail)
+  = Some (map (entry exp) (kv :: items), rest).
+Proof.
+  intros Hok Ht L. inversion Hok as [|? ? Hkv Hrest]; subst.
+  cbn [map] in *. rewrite join_cons, flat_map_map in *. rewrite <- app_assoc in *.
+  destruct fuel; [lia|].
+  match goal with |- assigns _ _ (_ ++ ?R) = _ =>
+    change (item_str U kv ++ R) with ((if false then [c_sp] else []) ++ item_str U kv ++ R) end.
+  rewrite (assigns_step U fuel exp kv _ false Hkv).
+  - rewrite (assigns_tail U items fuel exp tail rest Hrest Ht); [reflexivity|].
+    destruct (item_str_nonempty U kv Hkv) as (c & r & E & _). rewrite E in L.
+    rewrite ?app_length in *. cbn [length] in *. lia.
+  - destruct items; cbn [flat_map app]; [exact (tail_ends _ _ Ht) | reflexivity].
+  - exact L.
+Qed.
+
+(* ------------------------------------------------------------------ commands *)
+Lemma command_plain fuel s :
+  match strip_prefix EXPORT (skip_sp s) with
+  | Some (c :: _) => is_blank c = false
+  | _ => True
+  end ->
+  command fuel s = assigns fuel false s.
+Proof.
+  unfold command. destruct (strip_prefix EXPORT (skip_sp s)) as [[|c r]|]; intro H; try reflexivity.
+  rewrite H. reflexivity.
+Qed.
+
+Lemma name_char_not_blank c : is_name_char c = true -> is_blank c = false.
+Proof.
+  unfold is_name_char, is_name_start, is_alpha_ascii, is_digit, is_blank, c_us, c_sp, c_tab. intro H.
+  apply orb_false_iff; split; apply N.eqb_neq; intro E; subst c; discriminate H.
+Qed.
+
+Lemma no_export_prefix k X :
+  forallb is_name_char k = true ->
+  match strip_prefix EXPORT (k ++ c_eq :: X) with
+  | Some (c :: _) => is_blank c = false
+  | _ => True
+  end.
+Proof.
+  intro H. unfold EXPORT, c_eq.
+  destruct k as [|a1 [|a2 [|a3 [|a4 [|a5 [|a6 [|a7 k]]]]]]]; cbn [app strip_prefix];
+    repeat (match goal with |- context [if ?x =? ?y then _ else _] =>
+              let E := fresh "E" in
+              destruct (x =? y) eqn:E; [apply N.eqb_eq in E; try discriminate E|] end);
+    try exact I; try reflexivity.
+  cbn [forallb] in H. repeat (apply andb_true_iff in H as [? H]).
+  apply name_char_not_blank. assumption.
+Qed.
+
+Lemma command_plain_line U kv items fuel tail rest :
+  Forall item_ok (kv :: items) -> tail_spec tail rest ->
+  (length (join [c_sp] (map (item_str U) (kv :: items)) ++ tail) < fuel)%nat ->
+  command fuel (join [c_sp] (map (item_str U) (kv :: items)) ++ tail)
+  = Some (map (entry false) (kv :: items), rest).
+Proof.
+  intros Hok Ht L. rewrite command_plain; [apply assigns_line; assumption|].
+  inversion Hok as [|? ? Hkv _]; subst. destruct kv as [k v]. destruct Hkv as [Hk Hv]. cbn [fst snd] in *.
+  cbn [map]. rewrite join_cons.
+  assert (E : exists Y, item_str U (k, v) = k ++ c_eq :: Y).
+  { destruct v; [| |destruct Hv]; unfold item_str; cbn [render_val fst snd app]; eauto. }
+  destruct E as [Y ->]. rewrite <- !app_assoc. cbn [app].
+  destruct k as [|c k']; [discriminate|].
+  assert (Hc : is_name_start c = true) by (cbn [valid_nameb] in Hk; apply andb_true_iff in Hk; tauto).
+  change ((c :: k') ++ c_eq :: Y ++ ?Z) with ((if false then [c_sp] else []) ++ c :: k' ++ c_eq :: Y ++ Z).
+  rewrite (skip_sp_name false c _ Hc).
+  change (c :: k' ++ c_eq :: ?Z) with ((c :: k') ++ c_eq :: Z).
+  apply no_export_prefix. apply valid_name_chars. exact Hk.
+Qed.
+
+Lemma command_export_line U kv items fuel tail rest :
+  Forall item_ok (kv :: items) -> tail_spec tail rest ->
+  (length (join [c_sp] (map (item_str U) (kv :: items)) ++ tail) < fuel)%nat ->
+  command fuel ((EXPORT ++ [c_sp] ++ join [c_sp] (map (item_str U) (kv :: items))) ++ tail)
+  = Some (map (entry true) (kv :: items), rest).
+Proof.
+  intros Hok Ht L. rewrite <- !app_assoc. unfold command, EXPORT. cbn [app skip_sp].
+  cbn -[assigns join map]. apply assigns_line; assumption.
+Qed.
+
+(* ------------------------------------------------------------------ the whole text *)
+Lemma program_unfold f c s :
+  program (S f) (c :: s) =
+  match command (S f) (c :: s) with
+  | None => None
+  | Some (l, r) => match program f r with Some l' => Some (l ++ l') | None => None end
+  end.
+Proof. reflexivity. Qed.
+
+Lemma program_nil f : program f [] = Some [].
+Proof. destruct f; reflexivity. Qed.
+
+Definition line_str (U : uni) (items : env) : str := join [c_sp] (map (item_str U) items).
+
+Lemma line_nonempty U kv items :
+  item_ok kv -> exists c r, line_str U (kv :: items) = c :: r.
+Proof.
+  intro H. unfold line_str. cbn [map]. rewrite join_cons.
+  destruct (item_str_nonempty U kv H) as (c & r & -> & _). cbn [app]. eauto.
+Qed.
+
+Lemma lines_of_map U P X :
+  lines_of (map (item_str U) P) (map (item_str U) X) =
+  (match P with [] => [] | _ => [line_str U P] end)
+  ++ (match X with [] => [] | _ => [EXPORT ++ [c_sp] ++ line_str U X] end).
+Proof. destruct P, X; reflexivity. Qed.
+
+Lemma bash_eval_lines U P X :
+  Forall item_ok P -> Forall item_ok X ->
+  bash_eval (join [c_nl] (lines_of (map (item_str U) P) (map (item_str U) X)))
+  = Some (map (entry false) P ++ map (entry true) X).
+Proof.
+  intros HP HX. rewrite lines_of_map. unfold bash_eval.
+  destruct P as [|p P]; destruct X as [|x X].
+  - reflexivity.
+  - (* export line only *)
+    change (program (S (length (EXPORT ++ [c_sp] ++ line_str U (x :: X))))
+                    (EXPORT ++ [c_sp] ++ line_str U (x :: X)) = Some (map (entry true) (x :: X))).
+    set (text := EXPORT ++ [c_sp] ++ line_str U (x :: X)).
+    assert (T : text = 101 :: skipn 1 text) by reflexivity.
+    rewrite T at 2. rewrite program_unfold, <- T. subst text.
+    pose proof (command_export_line U x X (S (length (EXPORT ++ [c_sp] ++ line_str U (x :: X)))) [] []
+                  HX (or_introl (conj eq_refl eq_refl))) as C.
+    unfold line_str in *. rewrite !app_nil_r in C. rewrite C.
+    + rewrite program_nil, app_nil_r. reflexivity.
+    + rewrite ?app_length. cbn [length]. lia.
+  - (* plain line only *)
+    inversion HP as [|? ? Hp _]; subst.
+    destruct (line_nonempty U p P Hp) as (c & r & E).
+    change (program (S (length (line_str U (p :: P)))) (line_str U (p :: P))
+            = Some (map (entry false) (p :: P) ++ [])).
+    set (text := line_str U (p :: P)) in *.
+    rewrite E at 2. rewrite program_unfold, <- E. subst text.
+    pose proof (command_plain_line U p P (S (length (line_str U (p :: P)))) [] [] HP
+                  (or_introl (conj eq_refl eq_refl))) as C.
+    unfold line_str in *. rewrite !app_nil_r in C. rewrite C.
+    + rewrite program_nil, !app_nil_r. reflexivity.
+    + lia.
+  - (* both *)
+    inversion HP as [|? ? Hp _]; subst.
+    destruct (line_nonempty U p P Hp) as (c & r & E).
+    change (program (S (length (line_str U (p :: P) ++ [c_nl] ++ EXPORT ++ [c_sp] ++ line_str U (x :: X))))
+                    (line_str U (p :: P) ++ [c_nl] ++ EXPORT ++ [c_sp] ++ line_str U (x :: X))
+            = Some (map (entry false) (p :: P) ++ map (entry true) (x :: X))).
+    set (l2 := EXPORT ++ [c_sp] ++ line_str U (x :: X)).
+    set (text := line_str U (p :: P) ++ [c_nl] ++ l2).
+    assert (E1 : text = c :: (r ++ [c_nl] ++ l2)) by (subst text; rewrite E; reflexivity).
+    rewrite E1 at 2. rewrite program_unfold, <- E1.
+    assert (C1 : command (S (length text)) text = Some (map (entry false) (p :: P), l2)).
+    { subst text. unfold line_str. cbn [app].
+      apply command_plain_line; [exact HP | right; reflexivity |].
+      cbn [app length]. rewrite ?app_length. cbn [length]. lia. }
+    rewrite C1.
+    assert (T : l2 = 101 :: skipn 1 l2) by reflexivity.
+    assert (Len : (length l2 < length text)%nat).
+    { subst text. rewrite ?app_length. cbn [length]. lia. }
+    destruct (length text) as [|n] eqn:LT; [lia|].
+    rewrite T at 1. rewrite program_unfold, <- T.
+    pose proof (command_export_line U x X (S n) [] [] HX (or_introl (conj eq_refl eq_refl))) as C.
+    rewrite !app_nil_r in C. fold (line_str U (x :: X)) in C. fold l2 in C. rewrite C.
+    + rewrite program_nil, app_nil_r. reflexivity.
+    + subst l2. unfold line_str in Len. rewrite ?app_length in Len. cbn [length] in Len. Show. lia.
+Qed.
